@@ -195,8 +195,11 @@ def docstring(
             line = candidate_doc_str[prev_nl:next_nl]
             if not line.isspace():
                 break
-            # prev_nl = next_nl
+            prev_nl, next_nl = next_nl + 1, candidate_doc_str.find("\n", next_nl + 1)
             # current_indent:int = count_iter_items(takewhile(str.isspace, line))
+        else:
+            # Only whitespace-only lines precede the last line
+            line, next_nl = candidate_doc_str[prev_nl:], len(candidate_doc_str)
 
     if indent_level > current_indent:
         _tab = (indent_level - current_indent) * tab
